@@ -105,7 +105,11 @@ func ownFrames(c *vk.Ctx, frames []rig.Frame) []rig.Frame {
 	return own
 }
 
-func checkWire(c *vk.Ctx, desc string, frames []rig.Frame, c0 int, role rig.Role, sawLogon bool, replay map[string]interface{}) (sig string, switches int) {
+func checkWire(c *vk.Ctx, desc string, frames []rig.Frame, c0 int, role rig.Role, sawLogon bool, replay map[string]interface{}, locs ...*time.Location) (sig string, switches int) {
+	loc := time.UTC
+	if len(locs) > 0 && locs[0] != nil {
+		loc = locs[0]
+	}
 	var prevT time.Time
 	prevSrc := ""
 	var sb strings.Builder
@@ -140,7 +144,7 @@ func checkWire(c *vk.Ctx, desc string, frames []rig.Frame, c0 int, role rig.Role
 				return
 			}
 		}
-		ts, err := time.Parse(layout, fixref.GetS(f.Fields, rig.TTime))
+		ts, err := time.ParseInLocation(layout, fixref.GetS(f.Fields, rig.TTime), loc)
 		if err != nil {
 			c.Violate("C05/sending-time-format", fmt.Sprintf("%s: frame %d has 52=%q", desc, i, fixref.GetS(f.Fields, rig.TTime)), replay)
 			return
@@ -149,7 +153,7 @@ func checkWire(c *vk.Ctx, desc string, frames []rig.Frame, c0 int, role rig.Role
 			c.Violate("C05/sending-time-goes-backwards", fmt.Sprintf("%s: frame %d (34=%s) has 52=%s, the previous frame on the wire has %s: the time was not taken at send time under the numbering lock", desc, i, f.Seq, ts.Format(layout), prevT.Format(layout)), replay)
 			return
 		}
-		if ts.After(f.T.UTC().Add(2 * time.Millisecond)) {
+		if ts.After(f.T.Add(2 * time.Millisecond)) {
 			c.Violate("C05/sending-time-after-write", fmt.Sprintf("%s: frame %d has 52=%s but was written at %s", desc, i, ts.Format(layout), f.T.UTC().Format(layout)), replay)
 			return
 		}
@@ -187,6 +191,16 @@ func scenario(c *vk.Ctx, i int) {
 			G = 4
 		}
 	}
+	// every fifth scenario: the session writes its SendingTime in another zone (Opts.Location) than the sessions that
+	// run next to it in this process
+	var loc *time.Location
+	locName := ""
+	if (i/2)%5 == 2 {
+		if l, err := time.LoadLocation("Asia/Tokyo"); err == nil {
+			loc, locName = l, "Asia/Tokyo"
+			c.Count("sessions_with_their_own_time_zone", 1)
+		}
+	}
 	// every fourth scenario: the (chatty) peer also sends ResendRequests for a few messages below the last one sent
 	partialResend := (i/2)%4 == 1
 	if partialResend {
@@ -208,11 +222,11 @@ func scenario(c *vk.Ctx, i int) {
 	}
 	slowPeer := []time.Duration{0, 100 * time.Microsecond, 300 * time.Microsecond}[r.Intn(3)]
 	reuse := (i/2)%2 == 1 // every sender goroutine builds one message object and sends that object M times
-	desc := fmt.Sprintf("%s reusedObjects=%v flood=%v backlog=%v partialResends=%v G=%d M=%d buf=%d chatty=%v storeDelayMaxUs=%d peerReadsEvery=%v c0=%d GOMAXPROCS=%d #%d", role, reuse, flood, backlog, partialResend, G, M, buf, chatty, st.maxUs, slowPeer, c0, runtime.GOMAXPROCS(0), i)
+	desc := fmt.Sprintf("%s reusedObjects=%v flood=%v backlog=%v partialResends=%v zone=%q G=%d M=%d buf=%d chatty=%v storeDelayMaxUs=%d peerReadsEvery=%v c0=%d GOMAXPROCS=%d #%d", role, reuse, flood, backlog, partialResend, locName, G, M, buf, chatty, st.maxUs, slowPeer, c0, runtime.GOMAXPROCS(0), i)
 	_ = desc
 	replay := map[string]interface{}{"scenario": desc, "index": i, "seed": c.Seed}
 	holdCh := make(chan struct{})
-	f, err := rig.StartFull(rig.FullCfg{Role: role, HeartBtInt: 1, BufSize: buf, Counter: st, Messages: st, Notify: true, Label: fmt.Sprintf("c05-%d", i),
+	f, err := rig.StartFull(rig.FullCfg{Role: role, HeartBtInt: 1, BufSize: buf, Counter: st, Messages: st, Notify: true, Location: locName, Label: fmt.Sprintf("c05-%d", i),
 		AfterRun: func(h *simplefixgo.DefaultHandler, s *session.Session) {
 			h.HandleOutgoing(simplefixgo.AllMsgTypes, func(m simplefixgo.SendingMessage) bool {
 				st.nap()
@@ -356,7 +370,7 @@ func scenario(c *vk.Ctx, i int) {
 		// "retransmissions requested by the peer aside": only where the peer did request some
 		frames = ownFrames(c, frames)
 	}
-	sig, switches := checkWire(c, desc, frames, c0, role, refusedFirst, replay)
+	sig, switches := checkWire(c, desc, frames, c0, role, refusedFirst, replay, loc)
 	// application sends: sending time within [call, return]
 	bySeq := map[int]rig.Frame{}
 	for _, fr := range frames {
@@ -376,10 +390,14 @@ func scenario(c *vk.Ctx, i int) {
 			continue
 		}
 		ok++
-		ts, err := time.Parse(layout, fixref.GetS(fr.Fields, rig.TTime))
+		pl := time.UTC
+		if loc != nil {
+			pl = loc
+		}
+		ts, err := time.ParseInLocation(layout, fixref.GetS(fr.Fields, rig.TTime), pl)
 		if err == nil {
-			lo := time.Unix(0, s.call).UTC().Add(-2 * time.Millisecond)
-			hi := time.Unix(0, s.ret).UTC().Add(2 * time.Millisecond)
+			lo := time.Unix(0, s.call).Add(-2 * time.Millisecond)
+			hi := time.Unix(0, s.ret).Add(2 * time.Millisecond)
 			if ts.Before(lo) || ts.After(hi) {
 				c.Violate("C05/sending-time-not-taken-at-send-time", fmt.Sprintf("%s: message 34=%d has 52=%s but Send ran from %s to %s", desc, s.seq, ts.Format(layout), lo.Format(layout), hi.Format(layout)), replay)
 			}
@@ -455,6 +473,9 @@ func scenario(c *vk.Ctx, i int) {
 		l.Conn.Close()
 		time.Sleep(100 * time.Millisecond)
 		fr2, _ := l.Frames()
+		if partialResend {
+			fr2 = ownFrames(c, fr2)
+		}
 		last = c0 + len(fr2)
 		cur, _ := st.GetCurrSeqNum(fix.StorageID{Side: fix.Outgoing})
 		l2, err := f.Connect("c05-second")
@@ -476,7 +497,7 @@ func scenario(c *vk.Ctx, i int) {
 			time.Sleep(50 * time.Millisecond)
 			frames2, _ := l2.Frames()
 			// numbers assigned to messages that never reached the first connection (closed) are consumed; the second session continues from the stored counter
-			checkWire(c, desc+" [second session on the same counter store, counter was "+strconv.Itoa(cur)+", last on first wire "+strconv.Itoa(last)+"]", frames2, cur, role, false, replay)
+			checkWire(c, desc+" [second session on the same counter store, counter was "+strconv.Itoa(cur)+", last on first wire "+strconv.Itoa(last)+"]", frames2, cur, role, false, replay, loc)
 			c.Count("second_sessions_checked", 1)
 		}
 	}
